@@ -305,6 +305,7 @@ var sqKOther = []sqKFrame{
 	{"other-macro2", "( s:twice □ )"},
 	{"call-arg", "( s:list i:1 □ )"},
 	{"and", "( s:and s:true □ )"},
+	{"then-self-call", "( s:begin □ ( s:cond ( s:< s:n i:1 ) s:acc ( s:ff ( s:- s:n i:1 ) ) ) )"},
 }
 
 const sqKPrelude = "( s:def s:acc i:0 ) ( s:def s:i i:100 ) ( s:def s:j i:200 ) ( s:def s:r i:0 ) ( s:def s:q i:0 ) ( s:def s:n i:2 )"
@@ -432,6 +433,25 @@ func sqGenCtx(g *Gen) {
 					}
 				}
 			}
+		}
+		// a function that rebinds its OWN name through a macro (def / set / let written by the
+		// expansion), then calls the name in tail position: by hand the generator sees the
+		// rebinding (rebindsOwnName) and compiles an ordinary call of the new binding
+		selfCall := "( s:begin □ ( s:cond ( s:< s:n i:1 ) s:acc ( s:ff ( s:- s:n i:1 ) ) ) )"
+		for _, c := range []struct {
+			body sqKMac
+			args []string
+			prog string
+		}{
+			{sqKMac{"mm", "vf", "( s:def U0 U1 )", ""}, []string{"s:ff", "( s:fn [ s:a ] i:7 )"}, sqKProgram([]string{selfCall}, "tail")},
+			{sqKMac{"mm", "vf", "( s:set U0 U1 )", ""}, []string{"s:ff", "( s:fn [ s:a ] i:7 )"}, sqKProgram([]string{selfCall}, "tail")},
+			{sqKMac{"mm", "vf", "( s:let [ U0 U1 ] ( U0 s:n ) )", ""}, []string{"s:ff", "( s:fn [ s:a ] i:7 )"}, sqKProgram(nil, "tail")},
+			// controls: another name is rebound; the own name is only used as a value
+			{sqKMac{"mm", "vf", "( s:def U0 U1 )", ""}, []string{"s:gg", "( s:fn [ s:a ] i:7 )"}, sqKProgram([]string{selfCall}, "tail")},
+			{sqKMac{"mm", "vf", "( s:list U0 U1 )", ""}, []string{"s:ff", "i:0"}, sqKProgram([]string{selfCall}, "tail")},
+		} {
+			sqKEmit(g, c.body, c.args, c.prog)
+			g.Count("k/rebinds-own-name-through-macro")
 		}
 		// wrong arity / ill-typed splice: no expansion, the program must not compile
 		sqKEmit(g, sqKBodies[0], []string{}, sqKProgram([]string{sqKLoop("", "i")}, ""))
